@@ -7,6 +7,7 @@ from __future__ import annotations
 import asyncio
 import gc
 import hashlib
+import re
 import io
 import json
 import os
@@ -21,6 +22,7 @@ from .net import NetLoop
 from . import ctlworkers
 from .poolsim import silence_library_logging
 
+_POOL_TASK_RE = re.compile(r"_Task-\d+$")
 BLOCKING = ("until-closed", "gather-and-close", "flush")
 
 
@@ -71,6 +73,8 @@ class CtlSim:
         self.props = props
         self.loop = NetLoop(cfg.get("hmask", 0), cfg.get("net_seed", 0), cfg.get("net", {}))
         self.loop.set_debug(False)
+        self.pool_tasks = []
+        self.loop.on_task_created = self._on_task_created
         self.events = []
         self.viol = []
         self.stats = Counter()
@@ -98,16 +102,28 @@ class CtlSim:
     def ev(self, *a):
         self.events.append(a)
 
-    def violate(self, prop, oracle, msg):
+    def violate(self, prop, oracle, msg, signature=None):
         if self.props is not None and prop not in self.props:
             return
         if len(self.viol) < self.MAX_VIOL:
-            self.viol.append({"prop": prop, "oracle": oracle, "msg": msg, "handle": self.loop.handles_run,
-                              "t": round(self.loop.time(), 4)})
+            v = {"prop": prop, "oracle": oracle, "msg": msg, "handle": self.loop.handles_run, "t": round(self.loop.time(), 4)}
+            if signature:
+                v["signature"] = signature
+            self.viol.append(v)
         self.ev("VIOL", prop, oracle)
 
     def digest(self):
         return hashlib.sha1(repr(self.events).encode()).hexdigest()[:16]
+
+    def _on_task_created(self, task, coro, creator):
+        self.pool_tasks.append(task)      # (asyncio.create_task applies the name later: filtered by name when asked)
+
+    def early_dead_tasks(self):
+        """Trigger of the recorded finding F-EARLY, seen from outside: a pool task that ended cancelled although its
+        worker never ran its first statement."""
+        ran = {r["task"] for r in self.invocations}
+        return [t.get_name() for t in self.pool_tasks if _POOL_TASK_RE.search(t.get_name()) and t.done() and t.cancelled()
+                and t.get_name() not in ran]
 
     # ------------------------------------------------------------------ pool and workers
     def make_pool(self, cfg=None):
@@ -653,7 +669,12 @@ class CtlSim:
                 continue      # a malformed handshake is outside C18 (it is about lines sent after the handshake)
             if exc is None:
                 continue
-            self.violate("C18", "session_exception", f"{msg}: {type(exc).__name__}: {exc}" + (f" (client {c.label})" if c else ""))
+            sig = None
+            if isinstance(exc, asyncio.CancelledError) and self.early_dead_tasks():
+                # recorded finding F-EARLY reached through a session: gather-and-close / flush raise the CancelledError of
+                # a task that was cancelled before its first step, and that BaseException ends the session
+                sig = "F-EARLY"
+            self.violate("C18", "session_exception", f"{msg}: {type(exc).__name__}: {exc}" + (f" (client {c.label})" if c else ""), signature=sig)
 
     def _final_reply_counts(self):
         """C18: exactly one server write per complete non-blank line, in order (blocking commands may pend)."""
@@ -687,7 +708,9 @@ class CtlSim:
                 if nxt in BLOCKING and self._wait_not_over(nxt):
                     self.stats["probe:blocking_command_pending"] += 1
                 else:
-                    self.violate("C18", "missing_reply", f"client {c.label}: {len(replies)} replies for {n_lines} lines; unanswered: {lines[len(replies)]!r}")
+                    killed = self.early_dead_tasks() and any(isinstance(e, asyncio.CancelledError) for _, e, _ in self.session_exceptions())
+                    self.violate("C18", "missing_reply", f"client {c.label}: {len(replies)} replies for {n_lines} lines; unanswered: {lines[len(replies)]!r}",
+                                 signature="F-EARLY" if killed else None)
             # the client must have received exactly what the server wrote
             if not c.ct._stalled and bytes(c.recv) != b"".join(writes) and not c.lost_exc:
                 self.violate("C18", "stream_mismatch", f"client {c.label}: received bytes differ from what the server wrote")
